@@ -290,7 +290,7 @@ func (s *httpSrv) rpc(c net.Conn, body []byte) {
 		}
 	case m.Method != "" && !m.hasID():
 		s.simple(c, "202 Accepted", "")
-	case m.Method == "" && len(m.ID) > 0:
+	case m.Method == "":
 		s.set(func() { s.clientResp[string(m.ID)] = string(body) })
 		s.logf("client answered server request %s", m.ID)
 		s.simple(c, "202 Accepted", "")
